@@ -620,6 +620,9 @@ class Emitter:
         L.append("\tvf_load(&ctx, argv[1], argv[2]); vf_tls = &ctx; vf_install();")
         L.append("\tlexer = VfLexer::vf_make(%d);" % ((case["seed"] >> 3) & 1))
         for op in d.get("init", [("open", 0)]):
+            if op[0] in ("push", "pop", "top"):
+                L += self.ops_c([op], "\t", False)     # (start-condition calls before the first yylex())
+                continue
             L += self.xop_c(op, "\t", False)
         after = d.get("after", [])
         atend = d.get("atend", [])
@@ -847,6 +850,9 @@ class Emitter:
             L.append("\tif (yylex_init(&yyscanner) != 0) { vf_evi(&ctx, \"F init\", errno); "
                      "vf_finish(&ctx, 41); }")
         for op in d.get("init", [("open", 0)]):
+            if op[0] in ("push", "pop", "top"):
+                L += self.ops_c([op], "\t", False)     # (start-condition calls before the first yylex())
+                continue
             L += self.xop_c(op, "\t", False)
         after = d.get("after", [])
         atend = d.get("atend", [])
